@@ -630,6 +630,7 @@ void ExpressionBuilder::expr_dot(const char* id)
         }
         const auto index = templ_frame->second.get_index_of(id);
         if (!index) {
+            fragments.pop();  // false takes the place of the operand that the member was to be selected from
             expr_false();
             throw UnknownIdentifierError(id);
         }
